@@ -98,7 +98,9 @@ def _parseNormalHeader(fn: str) -> Tuple[str, str, float, float]:
 
 
 def _getNextValue(data: str, start: int) -> Tuple[str, int]:
-    end = data.index("\n", start)
+    end = data.find("\n", start)
+    if end == -1:  # The last line of a file need not end with a newline
+        end = len(data)
     value = data[start + 1 : end]
     return value, end
 
@@ -112,8 +114,9 @@ def _parseShortHeader(fn: str) -> Tuple[str, str, float, float]:
     objectType = chunkedData[1].split("=")[-1]
     objectType = objectType.replace('"', "").strip()
 
-    data = chunkedData[-1]
-    maxT = float(chunkedData[-3])
-    minT = float(chunkedData[-4])
+    # A file with no points may end right after the header
+    data = chunkedData[6] if len(chunkedData) > 6 else ""
+    maxT = float(chunkedData[4])
+    minT = float(chunkedData[3])
 
     return data, objectType, minT, maxT
